@@ -254,6 +254,14 @@ class Comparator(object):
         if b == 'comparator_bare_status':
             self.world.run.fault('comparator_bare_status')
             return EqualityStatus.Fixed
+        if data and 'rid' in data:
+            # the comparator gets the comparison data of THIS recording: nothing more, nothing less
+            tag = recorded.get('tag')
+            want = {'tolerance': int(tag[1:])} if int(tag[1:]) % 3 == 0 else {}
+            got = dict((k, v) for k, v in data.items() if k != 'rid')
+            if got != want:
+                self.world.run.violate('verdict_of_that_recording_alone', 'comparison-data-of-another-recording',
+                                       'the comparator of %s was called with comparison data %s, its own data is %s' % (tag, sorted(got.items()), sorted(want.items())))
         status = EqualityStatus.Equal if recorded == replayed else EqualityStatus.Different
         return ComparatorResult(status, 'compared %s with %s%s' % (recorded.get('tag'), replayed.get('tag'), ' data=%s' % data.get('rid') if data else ''))
 
@@ -263,7 +271,12 @@ class DataExtractor(object):
         self.world = world
 
     def __call__(self, recording):
-        return {'rid': recording.id}
+        # the key set varies between recordings: an optional entry only some of them carry
+        tag = self.world.tag_of.get(recording.id, 't0')
+        data = {'rid': recording.id}
+        if int(tag[1:]) % 3 == 0:
+            data['tolerance'] = int(tag[1:])
+        return data
 
 
 def status_name(comparison):
@@ -291,7 +304,7 @@ class Scenario(object):
         self.fault_rate = tape.choice([0, 1, 2, 4])          # out of 8
         self.duplicates = tape.draw(5) == 4
         self.idle_kill = tape.draw(6) == 5
-        self.consume = tape.weighted([(5, 'full'), (2, 'close_early'), (1, 'consumer_raises')])
+        self.consume = tape.weighted([(5, 'full'), (2, 'close_early'), (1, 'consumer_raises'), (1, 'drop_reference')])
         self.consume_k = tape.draw(self.n + 1)
         self.behaviours = []
         for i in range(self.n):
@@ -421,7 +434,14 @@ def run_scenario(run, tape, sc):
             out.leaving = True
             if sc.consumer_pause:
                 sim.sleep(sc.consumer_pause)       # ... and also before it lets go of the generator
-            gen.close()
+            if sc.consume == 'drop_reference':
+                # the consumer simply forgets the generator (and the equalizer) instead of closing it: reference counting
+                # finalises the generator at once
+                run.probe('generator_dropped_without_close')
+                gen = None
+                eq = None
+            else:
+                gen.close()
             out.finished = True
         out.alive_after = [p.pid for p in mp.processes if p.alive_quiet()]
         sim.sleep(0.05 + 0.02 + sc.slow_start + sc.exit_delay + (0.01 if sc.jitter else 0))
